@@ -413,8 +413,14 @@ class Gen:
             if k < 0.5:
                 return [ExprS(Method(Var(n), [(rng.choice(["左移", "右移"]), [])]))]
             if k < 0.6:
-                other = Var(rng.choice(ls)) if rng.random() < 0.6 else self.expr("list", d + 1)
-                return [ExprS(Method(Var(n), [("合并", [other])]))]
+                # one or several lists, the receiver itself among them now and then; the merged list that comes back is a
+                # list of its own: bound by 得到 it is changed later like any other
+                args = [Var(rng.choice(ls)) if rng.random() < 0.6 else self.expr("list", d + 1) for _ in range(rng.choice([1, 1, 2, 3]))]
+                if rng.random() < 0.4:
+                    r = self.fresh()
+                    self.declare(r, "list")
+                    return [ExprS(Method(Var(n), [("合并", args)], r))]
+                return [ExprS(Method(Var(n), [("合并", args)]))]
             if k < 0.7:
                 return [ExprS(Method(Var(n), [("交换", [Num(rng.randrange(0, 5)), Num(rng.randrange(0, 5))])]))]
             if k < 0.8:
